@@ -383,11 +383,12 @@ def run(ctx: Ctx) -> int:
     adds = [c for c in calls_in(hc) if call_leaf(c) == "add_argument"]
     from .util import strip_not
 
-    def _neg_any(t, pol):
-        inner, pos = strip_not(t)
-        return "ShtabAction" in ast.unparse(inner) and isinstance(inner, ast.Call) and call_leaf(inner) == "any" and (pol == pos) is False
+    from .util import guard_atoms
 
-    ok = bool(adds) and all(any(_neg_any(t, pol) for t, pol in guard_chain(a)) for a in adds)
+    def _neg_any(t, pol):
+        return "ShtabAction" in ast.unparse(t) and isinstance(t, ast.Call) and call_leaf(t) == "any" and pol is False
+
+    ok = bool(adds) and all(any(_neg_any(t, pol) for t, pol in guard_atoms(a)) for a in adds)
     ctx.oblige("C09.e", ok, adds[0] if adds else hc, "the lazily added --print_shtab action is added at most once" if ok else "--print_shtab can be added on every parse", fn=hc)
 
     ctx.trusted_base += ["argparse dispatches to Action.__call__ and to the _parse_optional hook only from inside _parse_known_args"]
